@@ -37,13 +37,13 @@ Definition parse_calls : list (string * list string) :=
   ; ("et:34824", leaf_calls) ; ("et:34826", leaf_calls) ; ("et:34969", leaf_calls) ; ("et:35020", leaf_calls)
   ; ("et:35085", leaf_calls) ; ("et:35130", leaf_calls)
   ; ("et:default", [])
-  (* the helpers on Parse's steady-state path (whole bodies; ".fast" = findOrCreateHostWithLock up to its first return) *)
+  (* the helpers on Parse's steady-state path, as LEAF sets: callees that are functions / methods of package packet are
+     expanded transitively, what is listed are builtins and calls into other packages - so extracting or inlining a
+     package-local helper does not change a set *)
   ; ("fn:echoNotify", [".Lock"; ".Unlock"; "close"; "delete"])
-  ; ("fn:findOrCreateHostWithLock", [".IP"; ".Lock"; ".Msg"; ".RLock"; ".RUnlock"; ".Struct"; ".Unlock"; ".Write"; ".deleteHost";
-                                     ".findOrCreate"; ".printHostTable"; "FindManufacturer"; "append"; "bytes.Equal"; "time.Now"])
-  ; ("fn:findOrCreateHostWithLock.fast", [".Lock"; ".RLock"; ".RUnlock"; ".Unlock"; "bytes.Equal"; "time.Now"])
-  ; ("fn:hostOnline", [".Lock"; ".Unlock"; ".onlineTransition"])
-  ; ("fn:onlineTransition", [".IP"; ".Is4"; ".IsGlobalUnicast"; ".IsInfo"; ".IsLinkLocalUnicast"; ".Msg"; ".Struct"; ".Write"])
+  ; ("fn:findOrCreateHostWithLock", [".IP"; ".IsDebug"; ".Lock"; ".Msg"; ".RLock"; ".RUnlock"; ".Struct"; ".Unlock"; ".Write"; "append";
+                                     "bytes.Equal"; "copy"; "delete"; "fmt.Sprintf"; "make"; "panic"; "string"; "time.Now"])
+  ; ("fn:hostOnline", [".IP"; ".Is4"; ".IsGlobalUnicast"; ".IsInfo"; ".IsLinkLocalUnicast"; ".Lock"; ".Msg"; ".Struct"; ".Unlock"; ".Write"])
   ; ("proto:1", [".EchoID"; ".IP4"; ".IsValid"; ".Payload"; ".Type"; ".Version"; "echoNotify"])
   ; ("proto:17", [".DstPort"; ".HeaderLen"; ".IsValid"; ".Payload"; ".SrcPort"])
   ; ("proto:2", [])
@@ -63,11 +63,10 @@ Definition show_calls (b : string) : option string :=
   else option_map (fun l => match l with [] => "-" | _ => join "," l end) (calls_of b parse_calls).
 
 (* inside the helpers: what can allocate there.  Building a log line (Msg .. Write; Struct boxes its argument), growing
-   the tables (append, findOrCreate, deleteHost, printHostTable, FindManufacturer's map lookup returns a string).  Mutex
-   operations, close / delete on the waiter map, bytes.Equal, time.Now and the netip predicates do not. *)
+   the tables (append, make, copy into a fresh slice, string conversion, fmt.Sprintf).  Mutex operations, close / delete
+   on a map, bytes.Equal, time.Now, the level tests and the netip predicates do not. *)
 Definition helper_may_alloc (name : string) : bool :=
-  existsb (String.eqb name) [".Msg"; ".Struct"; ".IP"; ".Write"; "append"; ".findOrCreate"; ".deleteHost"; ".printHostTable";
-                             "FindManufacturer"; ".onlineTransition"].
+  existsb (String.eqb name) [".Msg"; ".Struct"; ".IP"; ".Write"; "append"; "make"; "copy"; "string"; "fmt.Sprintf"; "panic"].
 Definition helper_alloc_free (b : string) : bool :=
   match calls_of b parse_calls with
   | Some l => forallb (fun n => negb (helper_may_alloc n)) l
@@ -83,10 +82,10 @@ Definition is_kind (k : alloc_kind) (name : string) : bool :=
 Definition branch_has (k : alloc_kind) (b : string * list string) : bool := existsb (is_kind k) (snd b).
 Definition branches_with (k : alloc_kind) : list string := map fst (filter (branch_has k) parse_calls).
 
-(* the log statements on Parse's path with the level that guards them (function, guard, message); kind "logs" *)
-Definition parse_logs : list (string * string * string) :=
-  [ ("findOrCreateHostWithLock", "always", "error_mac_address_differ_-_duplicated_IP?")
-  ; ("onlineTransition", "info", "IP_is_offline")
-  ; ("onlineTransition", "info", "IP_is_online") ].
-Definition show_logs : string :=
-  join "," (map (fun r => match r with (f, g, m) => f ++ ":" ++ g ++ ":" ++ m end) parse_logs).
+(* the log statements on Parse's path with the level that guards them: per function the multiset of guards (the message
+   text is not part of the property and is not compared); kind "logs" *)
+Definition parse_logs : list (string * string) :=
+  [ ("findOrCreateHostWithLock", "always")
+  ; ("onlineTransition", "info")
+  ; ("onlineTransition", "info") ].
+Definition show_logs : string := join "," (map (fun r => fst r ++ ":" ++ snd r) parse_logs).
